@@ -184,7 +184,10 @@ def gen_idx(rng) -> dict:
         k = m if u < 0.3 else m - 1 if u < 0.4 else 0 if u < 0.43 else m + rng.randint(1, 3) if u < 0.48 else rng.randint(1, m)
     else:
         k = rng.randint(1, min(30, m // 2))
-    return {"kind": "idx", "key": key, "k": k, "m": m, "algs": "real" if rng.random() < 0.7 else "multi3"}
+    c = {"kind": "idx", "key": key, "k": k, "m": m, "algs": "real" if rng.random() < 0.7 else "multi3"}
+    if rng.random() < 0.25:     # a two-call case: the caller changes the set it was given and asks again with the same arguments
+        c["mut"] = rng.choice(sorted(bb.MUTATIONS))
+    return c
 
 
 CAPS = [1, 2, 3, 5, 8, 13, 30, 100, 400]
@@ -367,8 +370,12 @@ def run_exhaustive(chk: Check):
 # shrinking and reporting
 # ------------------------------------------------------------------------------------------------
 
+_FIRST_RES: dict = {}      # first evaluation of every case the shrinker tried (a two-call case is only clean the first time when results are remembered)
+
+
 def still_bad(case: dict, want_spec: bool) -> bool:
     r = bb.evaluate([case])[0]
+    _FIRST_RES.setdefault(json.dumps(case, sort_keys=True), r)
     return r.diff_spec is not None if want_spec else r.bad
 
 
@@ -505,17 +512,57 @@ def classify(small: dict) -> str:
     return SIGNATURES[small["kind"]]
 
 
-def report(chk: Check, case: dict, origin: str, seen: set) -> bool:
+def report_history_dependent(chk: Check, case: dict, origin: str, seen: set, res0, history: list) -> bool:
+    """a case that failed in the run but does not fail (or not in the same way) when evaluated again on its own: the outcome
+    depends on what was called before.  That is itself a finding ("the index function is deterministic"; a filter's answer
+    is a function of the adds): replay the case after the earlier cases with the same arguments, and report either way."""
+    same = lambda a, b: a["kind"] == b["kind"] and (a["kind"] != "idx" or (a["key"], a["k"], a["m"]) == (b["key"], b["k"], b["m"]))  # noqa: E731
+    preds = [c for c in history if c is not case and same(c, case)]
+    if case["kind"] != "idx":
+        preds = []
+    group = preds[-6:] + [case]
+    res = bb.evaluate(group)[-1]
+    ident = "history|" + json.dumps(case, sort_keys=True)
+    if ident in seen:
+        return False
+    seen.add(ident)
+    in_run = (res0.diff_spec or res0.diff_model) if res0 is not None else None
+    if res.bad and len(group) > 1:
+        what = (f"the outcome depends on earlier calls: evaluated on its own the case passes, after {len(group) - 1} earlier call(s) with the same "
+                f"arguments: {res.diff_spec or res.diff_model}")
+        replay = {"cases": group, "trace": res.trace, "diff_vs_property": res.diff_spec, "diff_vs_model": res.diff_model}
+    else:
+        what = f"the outcome depends on earlier calls: in the run the case gave `{in_run}`, evaluated again on its own it does not"
+        replay = {"case": case, "trace_in_the_run": res0.trace if res0 is not None else None, "diff_in_the_run": in_run,
+                  "preceding_cases_with_the_same_arguments": preds[-6:]}
+    replay.update({"origin": origin, "replay_cmd": "./check C18 --replay <this file>"})
+    if case["kind"] == "idx" or (res0 is not None and res0.diff_spec is not None):
+        chk.violation(what, replay, signature=SIGNATURES[case["kind"]] + "-history-dependent")
+    else:
+        chk.violation("correspondence broken (the property still holds on this case): " + what,
+                      dict(replay, broken=f"correspondence Lean model <-> cashews ({case['kind']})"), signature=None, no_input=True)
+    return True
+
+
+def report(chk: Check, case: dict, origin: str, seen: set, res0=None, history: list | None = None) -> bool:
     """shrink one failing case and report it (False if an identical shrunk case was reported already)"""
     first = bb.evaluate([case])[0]
-    again = bb.evaluate([case])[0]
-    if (first.diff_spec, first.diff_model) != (again.diff_spec, again.diff_model):
-        raise HarnessError(f"case is not a pure function of its input: {case}")
-    if not first.bad:
-        raise HarnessError(f"failing case does not fail when run alone: {case}")
+    if case.get("mut"):
+        # a self-contained two-call case (the caller changes the result, the same call again).  If the library remembers
+        # results, a repetition of the case starts from what the previous repetition left behind: keep the first evaluation
+        if not first.bad and res0 is None:
+            return report_history_dependent(chk, case, origin, seen, res0, history or [])
+        first = res0 if res0 is not None and res0.bad else first
+        _FIRST_RES.setdefault(json.dumps(case, sort_keys=True), first)
+    else:
+        again = bb.evaluate([case])[0]
+        if not first.bad or (first.diff_spec, first.diff_model) != (again.diff_spec, again.diff_model):
+            return report_history_dependent(chk, case, origin, seen, res0, history or [])
     want_spec = first.diff_spec is not None
-    small = shrink(case, want_spec)
-    r = bb.evaluate([small])[0]
+    # (a two-call case is reported as generated: its arguments are small already, and every probe of the shrinker would leave
+    # its own traces in a library that remembers results - the smaller cases all meet at key '' / k = m = 0)
+    small = case if case.get("mut") else shrink(case, want_spec)
+    r = (_FIRST_RES.get(json.dumps(small, sort_keys=True)) if small.get("mut") else None) or bb.evaluate([small])[0]
     if not r.bad:
         small, r = case, first
     ident = json.dumps(small, sort_keys=True)
@@ -533,14 +580,14 @@ def report(chk: Check, case: dict, origin: str, seen: set) -> bool:
     return True
 
 
-def report_all(chk: Check, bad: list) -> int:
+def report_all(chk: Check, bad: list, cases: list | None = None) -> int:
     """`bad` = every failing (origin, case, Res) of the whole run.  Cases on which the implementation contradicts the
     PROPERTY come first (at most three, different kinds of case preferred); a difference from the model alone is
     reported (no-failing-input-found) only when the whole search found no case that contradicts the property."""
     seen: set = set()
     reported = 0
     spec = [b for b in bad if b[2].diff_spec is not None]
-    pool = spec if spec else bad
+    pool = sorted(spec if spec else bad, key=lambda b: 0 if b[1].get("mut") else 1)     # (stable) self-contained two-call cases first
     limit = 3 if spec else 2
     order, kinds = [], set()
     for b in pool:                       # one per kind first
@@ -548,10 +595,12 @@ def report_all(chk: Check, bad: list) -> int:
             kinds.add(b[1]["kind"])
             order.append(b)
     order += [b for b in pool if b not in order][:10]
-    for origin, case, _ in order:
+    for origin, case, res0 in order:
         if reported >= limit:
             break
-        if report(chk, case, origin, seen):
+        pos = next((i for i, (_, c) in enumerate(cases or []) if c is case), None)
+        history = [c for _, c in (cases or [])[:pos]] if pos is not None else []
+        if report(chk, case, origin, seen, res0, history):
             reported += 1
     return reported
 
@@ -648,7 +697,7 @@ def run(chk: Check) -> int:
     by_kind["incr1_exhaustive"] = ex_total
     for case in ex_bad[:3]:
         bad.append(("exhaustive", case, bb.evaluate([case])[0]))
-    found = report_all(chk, bad) if bad else 0
+    found = report_all(chk, bad, cases) if bad else 0
     if proof is not None:
         chk.proof_broken(proof, any(b[2].diff_spec is not None for b in bad))
     chk.coverage.update({
@@ -658,7 +707,7 @@ def run(chk: Check) -> int:
                 "fields are non-zero while one is written (counted separately for widths that are not powers of two), an index repeated "
                 "in one command, a never-written field read, two keys interleaved, a deadline set / kept by an increment / passed, an "
                 "increment or read on a run-out entry nothing has touched since its deadline (still physically stored), a live array deleted; "
-                "get_indexes - at least one re-probe, k = m, k > m (assertion); bloom - a query for an added element (also beyond capacity, "
+                "get_indexes - at least one re-probe, k = m, k > m (assertion), the same call again after the caller changed the set it was given; bloom - a query for an added element (also beyond capacity, "
                 "also in another call form than the one it was added through), a false positive observed, the decorator refusing its "
                 "parameters, an add / query on a run-out unpurged filter key, a filter deadline set / passed; dual_bloom - an answer given "
                 "from the filters alone, a call for an element recorded as true (also in another call form); bloom also - a lookup of an element "
